@@ -292,6 +292,14 @@ func (l *Lab) template(gcfg gen.Cfg, rec Recipe) (*template, error) {
 		switch filler {
 		case -1: // creates two refs, no logs, no journal
 			t = &gen.Txn{ID: i + 1, Refs: []gen.Ref{{Name: "refs/cancel/a", Kind: gen.KVal, Value: gen.IDHash(i+1, 0, gcfg.HashSize())}, {Name: "refs/cancel/b", Kind: gen.KSym, Target: "refs/heads/k00"}}}
+		case -3: // one ref and 60 reflog entries: a log section of many blocks at small block sizes
+			t = &gen.Txn{ID: i + 1, Refs: []gen.Ref{{Name: "refs/heads/k00", Kind: gen.KVal, Value: gen.IDHash(i+1, 0, gcfg.HashSize())}}}
+			for j := 0; j < 60; j++ {
+				t.Logs = append(t.Logs, gen.Log{Name: fmt.Sprintf("refs/logged/%03d", j), New: gen.IDHash(i+1, j+1, gcfg.HashSize()), User: "user", Email: "user@example.org",
+					Time: 1 << 40, Msg: fmt.Sprintf("entry %d of a table with a long log section\n", j)})
+			}
+			t.Refs = append(t.Refs, gen.Ref{Name: gen.JournalRef, Kind: gen.KVal, Value: gen.IDHash(i+1, 999, gcfg.HashSize())})
+			t.Logs = append(t.Logs, gen.Log{Name: gen.JournalRef, New: gen.IDHash(i+1, 999, gcfg.HashSize()), User: "j", Email: "j@x", Time: 1<<40 + uint64(i+1), Msg: fmt.Sprintf("t%d", i+1)})
 		case -2: // deletes them again: a range holding a -1 and a -2 table compacts to nothing
 			t = &gen.Txn{ID: i + 1, Refs: []gen.Ref{{Name: "refs/cancel/a", Kind: gen.KDel}, {Name: "refs/cancel/b", Kind: gen.KDel}}}
 		default:
